@@ -395,3 +395,101 @@ def run(ctx):
         for a in list(c.args) + [k.value for k in c.keywords]:
             got |= astq.names_in(a)
     ctx.ob(R7, pxi.qual, "ProxyConfig built from all four proxy TLS options", want <= got, f"missing {sorted(want - got)}")
+
+
+# ---------------------------------------------------------------------------- R8 (added after seeded change C18/merge-truthiness)
+def _run_r8(ctx):
+    import ast as _ast
+    from ..events import run_function
+    from ..interp import AV, UNK, BaseRule, Out, const
+
+    m = ctx.model
+    R8 = ctx.rule("C18-R8", "per-request overrides: the merge applies every override whose value is not None (falsy values such as False, 0, [] included) and removes a default only for None", "E5 decision rows on _merge_pool_kwargs")
+    fi = m.func(f"{PM}.PoolManager._merge_pool_kwargs")
+    ov = fi.params()[0]
+    merged = None
+    for r in astq.walk_fn(fi.node):
+        if isinstance(r, _ast.Return) and isinstance(r.value, _ast.Name):
+            merged = r.value.id
+    if merged is None:
+        raise AnalysisError("_merge_pool_kwargs does not return a local dict")
+
+    class MergeRule(BaseRule):
+        def __init__(self):
+            self.rows = []
+            self.iters = 0
+
+        def _close_iter(self, st):
+            if st.ts.get("iter_open"):
+                self.rows.append((st.facts.get("v", (None, None)), st.ts.get("acts", ()), st))
+
+        def for_iter(self, it, st, stmt, itv):
+            self._close_iter(st)
+            if st.ts.get("iters", 0) >= 1:
+                e = st.copy()
+                e.ts["iter_open"] = False
+                return [(e, False)]
+            self.iters += 1
+            s = st.copy()
+            s.ts["iters"] = s.ts.get("iters", 0) + 1
+            s.ts["iter_open"] = True
+            s.ts["acts"] = ()
+            s.facts.pop("v", None)
+            it.assign(s, stmt.target, AV("tuple", (AV("unk", sym="k"), AV("unk", sym="v")), truth=True, none=False))
+            e = st.copy()
+            e.ts["iter_open"] = False
+            return [(s, True), (e, False)]
+
+        def setitem(self, it, st, target, av):
+            if isinstance(target.value, _ast.Name) and target.value.id == merged:
+                st.ts["acts"] = st.ts.get("acts", ()) + (("store", av.sym),)
+
+        def delete(self, it, st, stmt):
+            for t in stmt.targets:
+                if isinstance(t, _ast.Subscript) and isinstance(t.value, _ast.Name) and t.value.id == merged:
+                    st.ts["acts"] = st.ts.get("acts", ()) + (("drop", None),)
+            return [Out("normal", st), Out("raise", st.copy(), __import__("sa.interp", fromlist=["exc"]).exc("builtins.KeyError"))]
+
+        def call(self, it, st, node, recv, pos, kw):
+            t = _ast.unparse(node.func)
+            if t in (f"{merged}.pop", f"{merged}.__delitem__"):
+                s = st.copy()
+                s.ts["acts"] = s.ts.get("acts", ()) + (("drop", None),)
+                return [Out("normal", s, UNK)]
+            if t in (f"{merged}.update", f"{merged}.setdefault", f"{merged}.__setitem__"):
+                s = st.copy()
+                s.ts["acts"] = s.ts.get("acts", ()) + ((t.rsplit(".", 1)[1], None),)
+                return [Out("normal", s, UNK)]
+            if t.endswith(".items") or t.endswith(".copy"):
+                return [Out("normal", st, AV("unk", none=False))]
+            return None
+
+    rule = MergeRule()
+    outs, it = run_function(m, fi, rule, f"{PM}.PoolManager", record_decisions=True)
+    for o in outs:
+        rule._close_iter(o.st)
+    ctx.sites(R8, rule.iters, 1, "loop over the overrides")
+    seen = set()
+    for (truth, none), acts, st in rule.rows:
+        kinds = tuple(a for a, _ in acts)
+        key = (truth, none, kinds)
+        if key in seen:
+            continue
+        seen.add(key)
+        stored = ("store", "v") in acts
+        if none is True:
+            ok = kinds == ("drop",) or kinds == ()
+            why = "an override of None must only remove the default"
+        else:
+            ok = stored and "drop" not in kinds
+            why = "an override whose value is not None (e.g. False, 0, [], CERT_NONE) is not applied: the request is keyed and served as if it had not been given"
+        ctx.ob(R8, fi.qual, f"row value truthy={truth} is-None={none}: actions {kinds}", ok, "" if ok else why, witness=st.witness(), node=fi.node)
+    ctx.sites(R8, len(seen), 2, "decision rows of the merge loop")
+
+
+_run_base = run
+
+
+def run(ctx):  # noqa: F811
+    _run_base(ctx)
+    _run_r8(ctx)
